@@ -25,6 +25,7 @@ WHAT = {
     "X11": "every Context has its own root frame and its own '@cleanups' list (nothing shared between two runs in one process)",
     "X1": "Context._pop removes exactly one frame on every exit (also when a cleanup raises), after running the cleanups",
     "X2": "every cleanup runs exactly once, in reverse registration order, whatever the others do; first error re-raised iff fail_on_cleanup_errors",
+    "X12": "every run of a runner starts on a Context of its own (nothing of an earlier run - attributes, registered cleanups - is inherited)",
     "X3": "add_cleanup registers into the current or the named layer; same callable with other arguments is registered again",
     "X4": "push, pop and current-frame accesses use the same end of the frame stack; lookups scan from that end",
     "X6": "generator fixture: cleanup registered before the setup part runs",
@@ -436,3 +437,59 @@ def check_root_frame_is_own(chk, ix):
     else:
         _fail(chk, "X11", init, problems[0], "Context.__init__: %s: test-run level cleanups registered in one run would run again in the next "
               "run of the same process" % "; ".join(problems))
+
+
+
+def check_fresh_context_per_run(chk, ix):
+    """X12: ModelRunner.run / Runner.run_with_paths evaluated on a runner that still holds the Context of an earlier run:
+    run_model() sees a Context created by this call."""
+    chk.rule("X12", WHAT["X12"])
+    for cname, meth in (("ModelRunner", "run"), ("Runner", "run_with_paths")):
+        rc = ix.cls("behave.runner:" + cname)
+        f = rc.lookup(meth)
+        if f is None:
+            raise AnalysisError("anchor missing: %s.%s" % (cname, meth))
+        seen = []
+        made = []
+
+        def ctx_ctor(i, s_, a, k, n):
+            r = s_.alloc(HObj("ContextTok", {}, open=True, label="context made by this run"))
+            made.append(r.oid)
+            return [(s_, "val", r)]
+
+        def run_model(i, s_, a, k, n):
+            c = s_.obj(a[0]).fields.get("context")
+            seen.append(c.oid if isinstance(c, Ref) else c)
+            return [(s_, "val", False)]
+        noop = lambda i, s_, a, k, n: [(s_, "val", None)]      # noqa: E731
+        stubs = {"Context": ctx_ctor, "ModelRunner.run_model": run_model, "Runner.run_model": run_model}
+        for m_ in ("load_hooks", "load_step_definitions", "setup_paths", "feature_locations", "setup_capture", "run_hook"):
+            stubs["Runner." + m_] = noop
+            stubs["ModelRunner." + m_] = noop
+        stubs["parse_features"] = lambda i, s_, a, k, n: [(s_, "val", s_.alloc(HObj("list", kind="list", items=[])))]
+        stubs["Runner.feature_locations"] = lambda i, s_, a, k, n: [(s_, "val", s_.alloc(HObj("list", kind="list", items=[])))]
+        stubs["make_formatters"] = lambda i, s_, a, k, n: [(s_, "val", ())]
+        stubs["ConfigTok.exclude"] = lambda i, s_, a, k, n: [(s_, "val", False)]
+        it = Interp(ix, stubs=stubs, name="%s.%s" % (cname, meth))
+        it.int_sat = 100
+        st = State()
+        st.frames = []
+        old = st.alloc(HObj("ContextTok", {}, open=True, label="context of the previous run"))
+        cfg = st.alloc(HObj("ConfigTok", {"exclude_re": None, "include_re": None, "paths": (), "lang": None, "format": None, "default_format": "pretty",
+                                          "outputs": (), "reporters": ()}, open=True, label="config"))
+        me = st.alloc(HObj(rc, {"context": old, "config": cfg, "features": st.alloc(HObj("list", kind="list", items=[])), "formatters": (),
+                                "step_registry": None, "hooks": st.alloc(HObj("dict", kind="dict", items=[]))}, label="runner"))
+        try:
+            outs = it.call_function(st, f, [], {}, None, self_val=me)
+        except AnalysisError as e:
+            raise AnalysisError("%s.%s not evaluable on tokens: %s" % (cname, meth, e))
+        chk.absorb(it)
+        chk.instance("X12")
+        if not seen or not all(k == "val" for _, k, _v in outs):
+            raise AnalysisError("%s.%s not evaluable on tokens: run_model reached %d time(s), exits %r" % (cname, meth, len(seen), [(k, v) for _, k, v in outs][:3]))
+        if all(c in made for c in seen):
+            chk.ok("X12", {"runner": "%s.%s" % (cname, meth), "run_model sees": "a Context created by this run"}, nontrivial_key=(cname, meth))
+        else:
+            _fail(chk, "X12", f, "%s.%s reuses the old context" % (cname, meth),
+                  "%s.%s() calls run_model() while the runner still holds the Context of the previous run: its attributes are visible to the new "
+                  "run's hooks and its test-run cleanups are executed a second time" % (cname, meth), outs[0][0].path if outs else ())
